@@ -1293,7 +1293,10 @@ class Store:
                 flow_updates.append((
                     process_path, process.flow))
 
-        self._delete_path(source_path)
+        # detach the source: its processes live on at the target (a
+        # deletion would stop the workers of parallel processes)
+        source_parent = self.get_path(source_path[:-1])
+        source_parent.inner.pop(source_path[-1], None)
 
         here = self.path_for()
         source_absolute = tuple(here + source_path)
